@@ -268,6 +268,7 @@ namespace vf
           std::string kind = "uniform";
           if (!o.uniform_only && (m.type == "subducting plate" || m.type == "fault") && ch.chance(25)) kind = "smooth";
           if (o.random_models && m.area() && m.type != "mantle layer" && m.type != "oceanic plate" && ch.chance(40)) kind = "random";
+          if (o.water && (m.type == "oceanic plate" || m.type == "subducting plate") && ch.chance(30)) kind = "tian water content";
           c["model"] = kind;
           const int nc = static_cast<int>(ch.range(1, 3));
           std::vector<int> ids;
@@ -287,6 +288,13 @@ namespace vf
             {
               if (m.type == "fault") { c["center fractions"] = fr; c["side fractions"] = fr2; c["side distance fault center"] = ch.lattice(20e3, 100e3, 10e3); }
               else { c["top fractions"] = fr; c["bottom fractions"] = fr2; c["max distance slab top"] = ch.lattice(20e3, 100e3, 10e3); }
+            }
+          else if (kind == "tian water content")
+            {
+              c["compositions"] = J::arr({comps[0]});
+              c["lithology"] = ch.pick<std::string>({"peridotite", "gabbro", "MORB", "sediment"});
+              c["initial water content"] = ch.lattice(0.5, 5, 0.5);
+              c["cutoff pressure"] = ch.lattice(1, 26, 1);
             }
           else if (kind == "random")
             {
@@ -322,7 +330,7 @@ namespace vf
           gm["deflections"] = d;
         }
       gm["grain sizes"] = sizes;
-      if (kind != "uniform" && (nc > 1 || ch.flip())) { J nz = J::arr(); for (int k = 0; k < nc; ++k) nz.push(J(ch.flip())); gm["normalize grain sizes"] = nz; }
+      if (kind != "uniform") { J nz = J::arr(); for (int k = 0; k < nc; ++k) nz.push(J(ch.flip())); gm["normalize grain sizes"] = nz; }
       a.push(gm);
       return a;
     }
